@@ -9,6 +9,7 @@ import (
 	"testing"
 
 	"compiler/verifharness/core"
+	"compiler/verifharness/sut"
 
 	"pgregory.net/rapid"
 )
@@ -79,6 +80,9 @@ func TestCampaign(t *testing.T) {
 			r := evalCase(p, c)
 			env.Stats.Record(r)
 			if r.Violation != "" {
+				r = confirm(p, c, r)
+			}
+			if r.Violation != "" {
 				if env.Known.IsKnown(p.ID, r.VKey) {
 					env.Stats.Label("known_hit:" + r.VKey)
 					continue
@@ -96,6 +100,9 @@ func TestCampaign(t *testing.T) {
 		c := p.Gen(rt, env)
 		r := evalCase(p, c)
 		env.Stats.Record(r)
+		if r.Violation != "" {
+			r = confirm(p, c, r)
+		}
 		if r.Violation != "" {
 			if env.Known.IsKnown(p.ID, r.VKey) {
 				env.Stats.Label("known_hit:" + r.VKey)
@@ -115,6 +122,9 @@ func TestReplay(t *testing.T) {
 	if dirs == "" {
 		t.Skip("VERIF_REPLAY not set")
 	}
+	// saved cases are decided on their own: known-finding suppression is off, real CLI only
+	env.Known = &core.Known{}
+	env.NoServer = true
 	for _, d := range strings.Split(dirs, ":") {
 		s, err := core.LoadCase(d)
 		if err != nil {
@@ -172,6 +182,39 @@ func oneLine(s string) string {
 		s = s[:400] + "..."
 	}
 	return s
+}
+
+// tcOf returns the toolchain handle; a persistent compile server is attached
+// unless the run is a confirmation/replay run (env.NoServer) or VERIF_NOSERVER=1.
+func tcOf(env *core.Env) sut.Toolchain {
+	tc := sut.Toolchain{Dir: env.Toolchain}
+	if env.NoServer || os.Getenv("VERIF_NOSERVER") == "1" {
+		return tc
+	}
+	v, err := env.Resource("ferretd", func() (any, error) {
+		s := sut.NewServer(tc)
+		closers = append(closers, s.Close)
+		return s, nil
+	})
+	if err == nil {
+		tc.Server = v.(*sut.Server)
+	}
+	return tc
+}
+
+// confirm re-decides a violating case through the real CLI only; a violation is
+// reported only if it reproduces there.
+func confirm(p *core.Prop, c any, r core.Result) core.Result {
+	if env.NoServer || os.Getenv("VERIF_NOSERVER") == "1" {
+		return r
+	}
+	env.NoServer = true
+	defer func() { env.NoServer = false }()
+	r2 := p.Check(env, c)
+	if r2.Violation == "" {
+		env.Stats.Label("server_only_divergence")
+	}
+	return r2
 }
 
 var closers []func()
